@@ -27,7 +27,7 @@ LEVEL = "exploration"
 VERSION = 1
 RULE = (
     "one case = corpus project (with or without programs) x seeded history of 1..6 reporting calls on one shared Result: PlotData(outputs: plain names, flow selectors, named aggregations, formulas in seeded order and subsets, mixed units on purpose; "
-    "pops: names, groups, 'total'; explicit or default output/pop aggregation; t_bins / time_aggregation / accumulate), interpolate, get_cascade_vals (framework and ad hoc cascades, every pop / group, years), get_cascade_data, "
+    "pops: names, groups, 'total'; explicit or default output/pop aggregation; t_bins / time_aggregation / accumulate), interpolate (also over two results with different time vectors), get_cascade_vals (framework and ad hoc cascades, every pop / group, years), get_cascade_data, "
     "get_coverage / get_alloc / get_equivalent_alloc, export_raw, export_results, plot_series, plot_bars, plot_cascade, Result.plot; distinct = distinct (project, history of call signatures) hashes; "
     "non-trivial = at least one PlotData/cascade answer was compared with its isolated query and the shared-object invariant was checked after >= 2 calls"
 )
